@@ -61,6 +61,7 @@ QUICK_LEXER = {
     "plaintext_state": "C01,C15",
     "rcdata_state": "C02", "attribute_value_double_quoted_state": "C02,C14", "after_attribute_name_state": "C02,C16", "comment_state": "C02,C14",
     "rcdata_end_tag_name_state": "C03", "script_data_end_tag_name_state": "C03",
+    "after_doctype_system_identifier_state": "C02,C14", "doctype_public_identifier_state": "C02",
     "self_closing_start_tag_state": "C06", "before_attribute_name_state": "C06,C16",
     "before_attribute_value_state": "C14", "attribute_value_unquoted_state": "C14", "doctype_name_state": "C14",
     "end_tag_open_state": "C15", "script_data_state": "C15", "comment_start_state": "C15",
@@ -74,6 +75,23 @@ QUICK_SCANNER = {
     "script_data_double_escaped_state": "C09", "script_data_double_escaped_less_than_sign_state": "C09", "rcdata_state": "C09",
     "plaintext_state": "C15", "before_attribute_name_state": "C15",
 }
+
+
+def load_calibration():
+    try:
+        return json.load(open(os.path.join(os.path.dirname(os.path.dirname(os.path.abspath(__file__))), "calibration.json")))["harnesses"]
+    except Exception:
+        return {}
+
+
+CAL = load_calibration()
+
+
+def deeper_ok(harness):
+    """the thorough tier uses the deeper chunk bound only for harnesses that were cheap at the quick bound
+    (measured, calibration.json); the others keep the quick bound so that the thorough tier stays conclusive"""
+    c = CAL.get(harness)
+    return bool(c) and c["quick_time_s"] < 45 and c["quick_rss_mb"] < 800
 
 
 class Model:
@@ -385,11 +403,19 @@ def gen_lexer(m, tier):
             if cut is not None and end_tag == "true":
                 # an end tag under construction needs room for "</x" + a delimiter before the cursor
                 nbv, nbt = max(nb, cut + 4), max(nb_th, cut + 5)
+            elif cut is not None:
+                # a start tag with one finished (non-empty) attribute and one in progress: "<a b c" before the cursor
+                nbv, nbt = max(nb, cut + 5), max(nb_th, cut + 6)
+            if not deeper_ok("step_lexer_%s%s" % (n, suffix)):
+                nbt = nbv
             w("#[kani::proof]")
             w("#[kani::unwind(%d)] // @thorough %d" % (nbv + 3, nbt + 3))
             w("fn step_lexer_%s%s() {" % (n, suffix))
             w("    const NB: usize = %d; // @thorough %d" % (nbv, nbt))
-            w("    let mut st = pre_step::<T, NB>(SID_%s, %s, %d, %d);" % (n, end_tag, pre_attrs, -1 if cut is None else cut))
+            # a finished earlier attribute in the pre-state needs room ("<a b " before the attribute in progress):
+            # only the variants with the larger concrete chunk carry one
+            pa = pre_attrs if cut is not None else 0
+            w("    let mut st = pre_step::<T, NB>(SID_%s, %s, %d, %d);" % (n, end_tag, pa, -1 if cut is None else cut))
             w("    let n = st.n;")
             w("    st.l.state = <Lexer<StepSink> as StateMachine>::%s as State<StepSink>;" % n)
             w("    let r = <Lexer<StepSink> as StateMachine>::%s(&mut st.l, &mut st.ctx, &st.input[..n]);" % n)
